@@ -26,7 +26,7 @@ PROGS_QUICK = [ESC + "simple-escape", ESC + "builtins-escape", ESC + "escape-loc
 PROGS_THOROUGH = PROGS_QUICK + [ESC + "trivial", TAINT + "closures", TAINT + "example1", TAINT + "fields",
                                 TAINT + "interfaces", TAINT + "panics", TAINT + "selects"]
 OPTS = {"quick": ["-pairs", "40", "-triples", "20", "-random", "30", "-perms", "5", "-perm-mono", "1", "-mono-cap", "30",
-                  "-weak-transfer", "100"],
+                  "-weak-transfer", "180"],
         "thorough": ["-pairs", "400", "-triples", "200", "-random", "300", "-perms", "12", "-perm-mono", "4", "-mono-cap", "0",
                      "-weak-transfer", "1200"]}
 
@@ -98,6 +98,8 @@ def run(chk):
     os.makedirs(work)
 
     progs = [p for p in (PROGS_QUICK if tier == "quick" else PROGS_THOROUGH) if os.path.isdir(os.path.join(vlib.REPO, p))]
+    # regression program of the known finding mono-call-load-on-fresh-subnode (absolute path: lives in /verif/corpus)
+    progs.append(os.path.join(vlib.VERIF, "corpus", "regress", "c15-call-load"))
     if not progs:
         raise vlib.BuildError("no escape test programs found under %s" % vlib.REPO, "")
     # the dumps are independent: run them in parallel (loading + pointer analysis of one program dominates)
